@@ -46,6 +46,8 @@ func heldAt(c *eng.Ctx, fn *ssa.Function, in ssa.Instruction, mu string, write b
 func runC06(c *eng.Ctx) {
 	p := c.P
 	everyPersistedGroupLoaded(c)
+	indexResetExcludesGroupCreation(c)
+	c.Rule("PROV", "pkg/queue.consumerGroup.IsEmpty{appended <= acknowledged}", func() { groupEmptyMeansAcknowledged(c) })
 	isLoadOf := func(field string) func(string, ssa.Value) bool {
 		return func(d string, v ssa.Value) bool { return strings.HasSuffix(d, "."+field) }
 	}
